@@ -94,14 +94,28 @@ func (t *StandardRoundTimer) background(ctx context.Context) {
 	}
 
 	var timerElapsed, cancelTimer chan struct{}
+	var curState *timerState
+
+	// A start request that arrived while the previous, already cancelled,
+	// timer was still being torn down.
+	var pendingReq *startTimerRequest
 
 	for {
-		// Wait for signal to start timer.
-		select {
-		case <-ctx.Done():
-			return
+		var req startTimerRequest
+		if pendingReq != nil {
+			req = *pendingReq
+			pendingReq = nil
+		} else {
+			// Wait for signal to start timer.
+			select {
+			case <-ctx.Done():
+				return
 
-		case req := <-t.startTimerRequests:
+			case req = <-t.startTimerRequests:
+			}
+		}
+
+		{
 			// We assume the timer is always stopped by the time we receive a valid start timer request.
 			// If the timer is stopped, then we are safe to reset.
 			timer.Reset(req.Dur)
@@ -111,6 +125,8 @@ func (t *StandardRoundTimer) background(ctx context.Context) {
 			// Local reference so the returned cancel function
 			// doesn't have a closure over the outer variable.
 			localCancel := cancelTimer
+			curState = new(timerState)
+			localState := curState
 			var cancelOnce sync.Once
 			// The caller should be blocking on the receive here,
 			// so we should be safe to do a blocking send.
@@ -118,6 +134,7 @@ func (t *StandardRoundTimer) background(ctx context.Context) {
 				Elapsed: timerElapsed,
 				Cancel: func() {
 					cancelOnce.Do(func() {
+						localState.cancel()
 						close(localCancel)
 					})
 				},
@@ -131,7 +148,11 @@ func (t *StandardRoundTimer) background(ctx context.Context) {
 
 		case <-timer.C:
 			// The timer elapsed.
-			close(timerElapsed)
+			// If the caller cancelled before we got here,
+			// both channels were ready and this case was picked at random;
+			// a cancelled timer must never report that it elapsed,
+			// so the decision is made under the timer's lock.
+			curState.elapse(timerElapsed)
 			timerElapsed = nil
 			cancelTimer = nil
 
@@ -152,12 +173,56 @@ func (t *StandardRoundTimer) background(ctx context.Context) {
 			timerElapsed = nil
 			cancelTimer = nil
 
-		case <-t.startTimerRequests:
-			panic(errors.New(
-				"BUG: new timer requested before previous timer elapsed or was cancelled",
-			))
+		case newReq := <-t.startTimerRequests:
+			// A new request is valid only once the previous timer was cancelled.
+			// The caller may cancel and immediately request a new timer,
+			// in which case the cancellation and the request are both ready here
+			// and this case may be the one that is picked.
+			select {
+			case <-cancelTimer:
+			default:
+				panic(errors.New(
+					"BUG: new timer requested before previous timer elapsed or was cancelled",
+				))
+			}
+
+			// Same teardown as the cancel case.
+			if !timer.Stop() {
+				select {
+				case <-timer.C:
+					// Okay.
+				case <-ctx.Done():
+					return
+				}
+			}
+
+			timerElapsed = nil
+			cancelTimer = nil
+			pendingReq = &newReq
 		}
 	}
+}
+
+// timerState decides, for one started timer,
+// between "elapsed" and "cancelled" exactly once:
+// after cancel returns, the elapsed channel is either already closed or never will be.
+type timerState struct {
+	mu        sync.Mutex
+	cancelled bool
+}
+
+func (s *timerState) cancel() {
+	s.mu.Lock()
+	s.cancelled = true
+	s.mu.Unlock()
+}
+
+func (s *timerState) elapse(elapsed chan struct{}) {
+	s.mu.Lock()
+	if !s.cancelled {
+		close(elapsed)
+	}
+	s.mu.Unlock()
 }
 
 func (t *StandardRoundTimer) getTimer(ctx context.Context, dur time.Duration) (<-chan struct{}, func()) {
